@@ -267,7 +267,7 @@ func rulePredict(r *Report) {
 		var stripPos token.Pos
 		for _, c := range allCalls(get) {
 			f := c.Common().StaticCallee()
-			if f == nil || f.Name() != "readNode" {
+			if f == nil || !strings.HasSuffix(shortFunc(f), ".readNode") {
 				continue
 			}
 			stripPos = c.Pos()
